@@ -4,6 +4,9 @@
 (*   Served{i, path, method, rstr, ae, status, cl, cr, enc, wlen, blen, runs[{f, from, to}], leak, rerr, ...}           *)
 (*                                                                           one per request, in order               *)
 (*   Panic{i, ...}                                      a panic escaped the handler: no action => rejected            *)
+(*   Hang{i, ...}                                       the request did not return within the driver's watchdog time  *)
+(*                                                      (e.g. a lock left held by a panic): no action => rejected;    *)
+(*                                                      the driver abandons the case (End follows, also rejected)     *)
 (*   End                                                                                                             *)
 (* Every Served line must satisfy FileServe!Oblig for the request it answers, and must equal (status, CL, CR, body   *)
 (* for the same method) every earlier answer of the same case to the same path and Range (cache / pooled reader).    *)
@@ -31,12 +34,12 @@ FilesOf(tree) == LET L == RangeOf(tree.lens) IN
 \*  OUTIDX (index.html in the PARENT of the root) are outside the root and therefore never in FilesOf)
 
 WellFormedCase(c) ==
-    /\ c.route \in {"fs", "fsrw", "file", "vhost"} /\ c.via \in {"read", "writeto"}
+    /\ c.route \in {"fs", "fsrw", "file", "vhost"} /\ c.via \in {"read", "writeto", "iocopy"} /\ c.tree.mtime = MTime
     /\ c.route = "file" => c.abr /\ c.compress            \* ServeFile's rootFS has AcceptByteRange and Compress
     /\ Len(c.reqs) >= 1
     /\ \A i \in DOMAIN c.reqs :
          LET q == c.reqs[i] IN
-         /\ q.method \in {"GET", "HEAD"} /\ WellFormedRange(q.range) /\ q.ae \in BOOLEAN
+         /\ q.method \in {"GET", "HEAD"} /\ WellFormedRange(q.range) /\ q.ae \in BOOLEAN /\ q.ims \in ImsKinds /\ q.imsstr = ImsStr(q.ims)
          /\ q.tgt \notin {"none", "dir", "any"} => q.tgt \in DOMAIN FilesOf(c.tree) /\ q.path = "/" \o q.tgt   \* plain path of that file
          /\ q.tgt = "none" => q.path \in {"/nofile", "/d/nofile", "/f9", "/f3x", "/index.html"} /\ "f9" \notin DOMAIN FilesOf(c.tree)
                                                                                               /\ "f3x" \notin DOMAIN FilesOf(c.tree)
@@ -58,14 +61,14 @@ TraceServed == /\ l <= Len(Trace) /\ Line.ev = "Served" /\ cs.id # 0
                /\ k <= Len(cs.reqs) /\ Line.i = k
                /\ LET q == cs.reqs[k]
                       o == Obs(Line) IN
-                  /\ Line.path = q.path /\ Line.method = q.method /\ Line.rstr = q.range.str /\ Line.ae = q.ae /\ Line.host = q.host   \* the driver sent what the case says
+                  /\ Line.path = q.path /\ Line.method = q.method /\ Line.rstr = q.range.str /\ Line.ae = q.ae /\ Line.host = q.host /\ Line.ims = q.ims   \* the driver sent what the case says
                   /\ Line.rerr = ""                                                                \* reading the body stream did not fail
                   /\ Line.blen = BodyLen(Line.runs)
                   /\ Line.enc = "" => Line.wlen = Line.blen
-                  /\ Oblig(FilesOf(cs.tree), cs.abr, cs.compress, q.ae, q.tgt, q.method, q.range, o)
+                  /\ Oblig(FilesOf(cs.tree), cs.abr, cs.compress, q.ae, q.ims, q.tgt, q.method, q.range, o)
                   /\ \A j \in DOMAIN hist : hist[j].path = q.path /\ hist[j].rstr = q.range.str /\ hist[j].rkind = q.range.kind
-                                              /\ hist[j].ae = q.ae /\ hist[j].host = q.host => SameAnswer(hist[j].method, hist[j].o, q.method, o)
-                  /\ hist' = Append(hist, [path |-> q.path, rstr |-> q.range.str, rkind |-> q.range.kind, ae |-> q.ae, host |-> q.host,
+                                              /\ hist[j].ae = q.ae /\ hist[j].host = q.host /\ hist[j].ims = q.ims => SameAnswer(hist[j].method, hist[j].o, q.method, o)
+                  /\ hist' = Append(hist, [path |-> q.path, rstr |-> q.range.str, rkind |-> q.range.kind, ae |-> q.ae, host |-> q.host, ims |-> q.ims,
                                            method |-> q.method, o |-> o])
                /\ k' = k + 1 /\ l' = l + 1 /\ UNCHANGED <<bad, cs>>
 
